@@ -27,7 +27,24 @@ inductive GeoErr : Img → Prop
 
 /-- validation reports an error exactly when the geometry is wrong -/
 theorem validate_iff (i : Img) : i.validate = .ok () ↔ ¬ GeoErr i := by
-  sorry
+  induction i using Img.induct' with
+  | h s o a b p ch ih =>
+    rw [validate_ok_iff]
+    constructor
+    · rintro ⟨h1, h2, h3⟩ hg
+      cases hg with
+      | bin _ hb => simp only [Img.binary] at hb; omega
+      | child _ c hc hgc => exact (ih c hc).1 (h2 c hc).1 hgc
+      | sticks _ c hc hs => have := (h2 c hc).2; omega
+      | overlap _ x y ca cb hxy hx hy hov => exact h3 x y ca cb hxy hx hy hov
+    · intro hn
+      refine ⟨?_, ?_, ?_⟩
+      · apply Nat.le_of_not_lt; intro hlt; exact hn (.bin _ hlt)
+      · intro c hc
+        refine ⟨(ih c hc).2 (fun hg => hn (.child _ c hc hg)), ?_⟩
+        apply Nat.le_of_not_lt; intro hlt; exact hn (.sticks _ c hc hlt)
+      · intro x y ca cb hxy hx hy hov
+        exact hn (.overlap _ x y ca cb hxy hx hy hov)
 
 /-! ## alignment well-formedness: what the constructor establishes (`_size = align(size, alignment)`) -/
 
@@ -36,20 +53,41 @@ inductive AlignWF : Img → Prop
 
 /-- the reported length is a multiple of the alignment -/
 theorem len_aligned (i : Img) (h : AlignWF i) : i.len % i.alignment = 0 := by
-  sorry
+  cases h with
+  | mk _ h1 h2 _ =>
+    cases i with
+    | mk s o a b p ch =>
+      simp only [Img.alignment, Img.size] at *
+      rw [Img.len]
+      split
+      · exact h2
+      · exact (alignNat_spec _ _ h1).1
 
 /-! ## export -/
 
 /-- a valid tree exports, and the buffer has exactly the reported length -/
 theorem export_length (i : Img) (hv : i.validate = .ok ()) (ha : AlignWF i) :
     ∃ b, i.export = .ok b ∧ b.length = i.len := by
-  sorry
+  induction i using Img.induct' with
+  | h s o a bin p ch ih =>
+    cases ha with
+    | mk _ h1 h2 h3 =>
+      obtain ⟨b, hb, hl, _⟩ := export_spec s o a bin p ch h1 h2 hv
+        (fun c hc => ih c hc (validate_child _ c hv hc).1 (h3 c hc))
+      exact ⟨b, hb, hl⟩
 
 /-- every sub-image's bytes appear at its offset -/
 theorem export_child_at (i c : Img) (b bc : Bytes) (hv : i.validate = .ok ()) (ha : AlignWF i)
     (hc : c ∈ i.children) (hb : i.export = .ok b) (hbc : c.export = .ok bc) :
     (b.drop c.offset).take bc.length = bc := by
-  sorry
+  cases i with
+  | mk s o a bin p ch =>
+    cases ha with
+    | mk _ h1 h2 h3 =>
+      obtain ⟨b', hb', _, _, hat⟩ := export_spec s o a bin p ch h1 h2 hv
+        (fun c hc => export_length c (validate_child _ c hv hc).1 (h3 c hc))
+      rw [hb] at hb'; cases hb'
+      exact take_drop_of_get b bc c.offset (hat c hc bc hbc)
 
 /-- … at every depth: a descendant reached through offsets `o₁, o₂, …` appears at the absolute offset `Σ oₖ` -/
 inductive DescAt : Img → Nat → Img → Prop
@@ -59,21 +97,47 @@ inductive DescAt : Img → Nat → Img → Prop
 theorem export_desc_at (i d : Img) (o : Nat) (b bd : Bytes) (hv : i.validate = .ok ()) (ha : AlignWF i)
     (hd : DescAt i o d) (hb : i.export = .ok b) (hbd : d.export = .ok bd) :
     (b.drop o).take bd.length = bd := by
-  sorry
+  induction hd generalizing b with
+  | self i =>
+    rw [hb] at hbd; cases hbd
+    simp
+  | step i c d o hc _ ih =>
+    have hvc := (validate_child i c hv hc).1
+    have hac : AlignWF c := by cases ha with | mk _ _ _ h3 => exact h3 c hc
+    obtain ⟨bc, hbc, _⟩ := export_length c hvc hac
+    exact take_drop_trans b bc bd c.offset o (export_child_at i c b bc hv ha hc hb hbc)
+      (ih bc hvc hac hbc hbd)
 
 /-- the own binary sits at offset 0 wherever no sub-image covers it -/
 theorem export_own_binary (i : Img) (b bin : Bytes) (k : Nat) (hv : i.validate = .ok ()) (ha : AlignWF i)
     (hb : i.export = .ok b) (hbin : i.binary = some bin) (hk : k < bin.length)
     (hfree : ∀ c ∈ i.children, k < c.offset ∨ c.offset + c.len ≤ k) :
     b[k]? = bin[k]? := by
-  sorry
+  cases i with
+  | mk s o a bin' p ch =>
+    simp only [Img.binary, Img.children] at hbin hfree
+    subst hbin
+    cases ha with
+    | mk _ h1 h2 h3 =>
+      obtain ⟨b', hb', _, hfr, _⟩ := export_spec s o a (some bin) p ch h1 h2 hv
+        (fun c hc => export_length c (validate_child _ c hv hc).1 (h3 c hc))
+      rw [hb] at hb'; cases hb'
+      rw [hfr k hfree, ownBuf_get_bin _ _ _ _ hk]
 
 /-- everything else holds the fill pattern -/
 theorem export_fill (i : Img) (b : Bytes) (k : Nat) (hv : i.validate = .ok ()) (ha : AlignWF i)
     (hb : i.export = .ok b) (hk : k < i.len) (hbin : binLen i.binary ≤ k)
     (hfree : ∀ c ∈ i.children, k < c.offset ∨ c.offset + c.len ≤ k) :
     b[k]? = (patBlock i.pattern i.len)[k]? := by
-  sorry
+  cases i with
+  | mk s o a bin p ch =>
+    simp only [Img.binary, Img.children, Img.pattern] at hbin hfree ⊢
+    cases ha with
+    | mk _ h1 h2 h3 =>
+      obtain ⟨b', hb', _, hfr, _⟩ := export_spec s o a bin p ch h1 h2 hv
+        (fun c hc => export_length c (validate_child _ c hv hc).1 (h3 c hc))
+      rw [hb] at hb'; cases hb'
+      rw [hfr k hfree, ownBuf_get_fill _ _ _ _ hbin]
 
 /-- alignment padding only ever extends the end: with a derived size, exporting with alignment `a` is exporting
     with alignment 1 plus appended padding -/
@@ -81,7 +145,7 @@ theorem align_extends (off a : Nat) (bin : Option Bytes) (pat : Option Pattern) 
     (ha : 0 < a) (h1 : (Img.mk 0 off 1 bin pat ch).export = .ok b1) (hne : b1 ≠ []) :
     ∃ pad, (Img.mk 0 off a bin pat ch).export = .ok (b1 ++ pad) ∧
       (b1 ++ pad).length = alignNat b1.length a := by
-  sorry
+  exact align_extends' off a bin pat ch b1 ha h1
 
 /-! ## add_image / append_image -/
 
@@ -91,12 +155,14 @@ def SortedByOffset (l : List Img) : Prop := l.Pairwise (fun x y => x.offset ≤ 
 theorem insertSorted_sorted (c : Img) (l : List Img) (h : SortedByOffset l) :
     SortedByOffset (insertSorted c l) ∧ (insertSorted c l).length = l.length + 1 ∧
       (∀ x, x ∈ insertSorted c l ↔ x = c ∨ x ∈ l) := by
-  sorry
+  exact ⟨sorted_insertSorted c l h, length_insertSorted c l, mem_insertSorted c l⟩
 
 /-- `append_image` puts the new image at the previous end of the parent -/
 theorem appendImage_offset (p c : Img) :
     ∃ c', c' ∈ (p.appendImage c).children ∧ c'.offset = p.len ∧ c'.len = c.len := by
-  sorry
+  refine ⟨c.withOffset p.len, ?_, offset_withOffset _ _, len_withOffset _ _⟩
+  rw [Img.appendImage, children_addImage, mem_insertSorted]
+  exact Or.inl rfl
 
 /-! ## non-vacuity -/
 
